@@ -302,6 +302,7 @@ def paired_checks(rep, rng, drv, k, cls, inp, D, Dr, D0, a, b, c, convex, o, s, 
 
 KEY_TIE = "C09-noisy-ppf-reflection-exact-bisection-tie"
 KEY_F4 = "F4-noisy-average-curve-premature-convergence-zero-inside-range"
+KEY_FLAT = "C09-noisy-ppf-reflection-decision-within-1e-13-of-tie-cdf-cannot-resolve"
 KEY_PDF_NOISE = "C09-noisy-pdf-scale-equivariance-within-rounding-noise-of-pdf"
 
 
@@ -313,8 +314,9 @@ def ppf_pair_failed(rep, cls, inp, S, tie_margin, what, extra, expected, observe
         opposite sides of the tie point -> known finding (keyed);
       * margin < 1e-13 and the code's own cdf (of D or of D') takes the same value at the two answers to 1e-13 — ten times
         finer than the 1e-12 to which the property itself pins the cdf identity — i.e. the float cdf is flat or noisy at
-        that level there (q within ~1e-9 of 0 or 1), or the two float cdfs decide a last-place tie differently: rounding,
-        outside what the property can mean -> counted and skipped;
+        that level there (q within ~1e-9 of 0 or 1), or the two float cdfs decide a last-place tie differently; the two
+        answers then differ by a few final brackets (observed up to 4e-7 of the scale; cap 1e-5) against the property's
+        1e-12 -> by the letter a violation on the unchanged tree: known finding (keyed; three replays at most);
       * otherwise a plain violation."""
     diff = abs(expected - observed)
     if tie_margin is not None and tie_margin == 0.0 and diff <= 2.0 ** -29 * S:
@@ -324,8 +326,15 @@ def ppf_pair_failed(rep, cls, inp, S, tie_margin, what, extra, expected, observe
         rep.violate(what=what + ": bisection tie-break (`cdf(mid) < q`) is not reflection-symmetric at an exact tie",
                     input=dict(inp, **extra), expected=expected, observed=observed, call=cls + meth, finding_key=KEY_TIE,
                     tie_margin=tie_margin)
-    elif tie_margin is not None and tie_margin < 1e-13 and cdf_gap is not None and cdf_gap <= 1e-13:
-        rep.skip("ppf_pair_indistinguishable_by_the_cdf_at_1e-13_(bisection_decision_within_1e-13_of_a_tie)")
+    elif tie_margin is not None and tie_margin < 1e-13 and cdf_gap is not None and cdf_gap <= 1e-13 and diff <= 1e-5 * S:
+        rep.count("ppf_pairs_indistinguishable_by_the_cdf_at_1e-13")
+        if rep.hist["ppf_pairs_indistinguishable_by_the_cdf_at_1e-13"] > 3:
+            return
+        rep.violate(what=what + ": a bisection decision `cdf(mid) < q` lies within 1e-13 of a tie and the code's own cdf takes the same "
+                                "value (to 1e-13) at the two answers - the float cdf near 1 cannot resolve a level that its mirror image "
+                                "near 0 resolves",
+                    input=dict(inp, **extra), expected=expected, observed=observed, call=cls + meth, finding_key=KEY_FLAT,
+                    tie_margin=tie_margin, cdf_gap=cdf_gap, diff_over_scale=diff / S)
     else:
         rep.violate(what=what, input=dict(inp, **extra), expected=expected, observed=observed, call=cls + meth,
                     tie_margin=tie_margin, cdf_gap=cdf_gap)
